@@ -18,7 +18,7 @@ def strategy(optimizer, tier):
         optimizer,
         task=strategies.task_spec(minmax=("min", "max", "max"), families=FAM),
         config=strategies.config_spec(optimizer, max_cycles=(1, 6 if tier == "quick" else 20)),
-        modes=("serial",) * 12 + ("thread", "thread", "process"))
+        modes=("serial",) * 12 + ("thread", "thread", "process"), warmup=0.15)
 
 
 def judge(spec, obs):
